@@ -28,7 +28,7 @@ RULE = ('cases = (pass-through function, table, arguments, target kind); seeded 
         'Non-trivial: the table has >= 2 data rows. Distinct = SHA-1 of the case.')
 ASSUMPTIONS = ['tee targets: MemorySource and plain file paths', 'a tee is compared with to* only after it was iterated to the end']
 FNS = ['teecsv', 'teetsv', 'teepickle', 'teetext', 'teehtml', 'progress', 'log_progress', 'clock', 'cache', 'wrap']
-REQUIRED = ['progress-under-a-clock-that-does-not-advance', 'progress-default-batchsize-over-several-batches', 'cache-cleared-while-a-pass-is-part-way', 'teetext:repeated-field-name-in-the-template', 'field-names-that-are-not-strings', 'table-without-any-row', 'header-without-fields', 'explicit-csv-dialect'] + ['fn:' + f for f in FNS] + ['tee-bytes-compared', 'ragged-table', 'header-only-table', 'write_header=False', 'file-target', 'memory-target',
+REQUIRED = ['progress-under-a-clock-that-does-not-advance', 'teehtml:tr_style-reads-a-field-by-name', 'progress-default-batchsize-over-several-batches', 'cache-cleared-while-a-pass-is-part-way', 'teetext:repeated-field-name-in-the-template', 'field-names-that-are-not-strings', 'table-without-any-row', 'header-without-fields', 'explicit-csv-dialect'] + ['fn:' + f for f in FNS] + ['tee-bytes-compared', 'ragged-table', 'header-only-table', 'write_header=False', 'file-target', 'memory-target',
                                          'cache-limited', 'non-utf8-encoding', 'cache-interleaved-iterators']
 TEXT = ['', 'a', 'b c', 'x,y', 'q"q', "it's", 'é', '€', 'l1\nl2', 'cr\rlf', 'tab\there', '<b>&amp;</b>', ' pad ', '1', '2.5', 'None']
 MIXED = TEXT + [None, 0, 1, -3, 2.5, True, gen.D(2020, 1, 1), (1, 2), b'by']
@@ -312,7 +312,13 @@ def judge(case, ctx):
         elif case['td_styles']:
             kw['td_styles'] = case['td_styles']
         if case['tr_style'] == 'callable':
-            kw['tr_style'] = lambda row: 'n: %d' % len(row)
+            # the documented contract: the callable is handed each row as a record, so a field can be read by its name
+            name0 = table[0][0] if (table and len(table[0]) and isinstance(table[0][0], str) and list(table[0]).count(table[0][0]) == 1) else None
+            if name0 is not None:
+                ctx.seen('teehtml:tr_style-reads-a-field-by-name')
+                kw['tr_style'] = lambda row, name0=name0: 'n: %d; first: %s' % (len(row), type(row[name0]).__name__)
+            else:
+                kw['tr_style'] = lambda row: 'n: %d' % len(row)
         elif case['tr_style']:
             kw['tr_style'] = case['tr_style']
         kw['lineterminator'] = case['lineterminator']
